@@ -2,7 +2,7 @@
 """Token-level parse harness (kind K1): real parser driven by symbolic bytes vs reference LR interpreter."""
 import os, sys, json, itertools, random
 sys.path.insert(0, os.path.join(os.path.dirname(os.path.abspath(__file__)), '..', 'gen'))
-import vlib, lr1, emit
+import vlib, lr1, emit, lexref
 
 ORACLES = {
     'accept':    '  ora_accept(OUT, &R);\n',
@@ -31,6 +31,11 @@ class ParseCase:
         self.g = g; self.L = L; self.asserts = list(asserts); self.ws = ws; self.nl = nl; self.verbose = verbose; self.mode = mode
         self.lr = lr or lr1.LR1(g)
         b = lr1.bounds(g, self.lr, L, verbose=bool(verbose))
+        if g.tkinds:   # byte level: up to L tokens
+            for l2 in range(0, L):
+                b2 = lr1.bounds(g, self.lr, l2, verbose=bool(verbose))
+                for k in ('steps', 'depth', 'nmsg', 'nred', 'nterm'): b[k] = max(b[k], b2[k])
+                b['accepted'] += b2['accepted']
         self.b = b
         self.maxmsg = b['nmsg'] + 1; self.maxred = max(b['nred'], 1) + 1; self.maxterm = max(b['nterm'], 1) + 1
         self.D = b['steps'] + 3
@@ -48,7 +53,7 @@ class ParseCase:
         cpp = wrapper or emit.parse_wrapper_cpp(g, variant=variant, ctxkind=ctxkind)
         self.unit = vlib.Unit(wd, 'u_' + self.name, cpp, defines=self.defs, ir2c_flags=(['--writeset'] if mode == 'writeset' else []))
         body = ''.join(ORACLES[a] for a in self.asserts) + extra_body
-        self.harness = emit.parse_harness_c(os.path.basename(self.unit.c), lr1.emit_tables(g, self.lr), body, variant=variant)
+        self.harness = emit.parse_harness_c(os.path.basename(self.unit.c), lr1.emit_tables(g, self.lr), body, variant=variant, lex_c=(lexref.LexDFA(g.tkinds).emit_c() if g.tkinds else None))
         self.in_assume = in_assume; self.witness = witness
         self.native = {}
 
@@ -134,6 +139,7 @@ class ParseCase:
                 extra = {'ANS_IDX': [rnd.choice(list(range(self.g.nt)) + [0xffff]) for _ in range(self.L)], 'ANS_LEN': [rnd.randint(1, max(1, self.L - i)) for i in range(self.L)]}
             if self.variant == 'ctx': opts = (self.ws | (self.nl << 1) | (self.verbose << 2)) | (rnd.randrange(256) << 8)
             a = self.run_native('real', inp, opts, extra); b = self.run_native('xlat', inp, opts, extra); n += 1
+            if a is not None and b is not None and a['out'] is None and b['out'] is None and a['rc'] == b['rc'] and a['rc'] < 0: continue   # both builds crash the same way (a listed finding)
             if a is None or b is None or a['out'] != b['out'] or a['out'] is None:
                 return {'ok': False, 'n': n, 'why': 'real and translated disagree on %s: %s / %s' % (vlib.hexs(inp), a and (a['out'] or a['why'])[:120], b and (b['out'] or b['why'])[:120])}
         return {'ok': True, 'n': n, 'why': ''}
